@@ -12,6 +12,7 @@ import (
 	"verif/mc/harness/gw"
 	"verif/mc/ref/refmqtt"
 	"verif/mc/ref/refsn"
+	"verif/mc/vsched"
 )
 
 // ---- C06 (gateway side): exchanges started by each side never interfere ---------
@@ -82,21 +83,37 @@ type c06mon struct {
 	maxTimer int
 	broken   map[string]bool // exchanges already reported as disturbed (or expired by themselves)
 	clientTx bool            // the client-started exchange had a transaction in the store after the previous event
+	// superseded family: an earlier, abandoned exchange with the same message id is part of the setup; its own
+	// expiry must not take the state of the exchange that superseded it along
+	superseded string
+	txPrev     string // the gateway's client-side transaction under the shared id after the previous event
+	ownState   bool   // the exchange under observation has stored a transaction of its own
+	cxStart    time.Duration
+	retryDelay time.Duration
 }
 
 func (m *c06mon) After(g *gw.GW, ev string, sn []gw.SNOut, mq []gw.MQOut, setup bool) []explore.Violation {
-	if setup {
-		return nil
-	}
 	clientPending := false
+	txNow := ""
 	for _, tx := range g.H.VTransactions() {
 		if strings.HasPrefix(tx, fmt.Sprintf("id%d=", m.mid)) {
 			clientPending = true
+			txNow = tx
 		}
 	}
+	defer func() { m.txPrev = txNow }()
+	if setup {
+		return nil
+	}
 	defer func() { m.clientTx = clientPending }()
+	now := g.S.Now().Sub(vsched.Epoch)
 	if strings.HasSuffix(ev, "T:next") {
 		m.timers++
+		if m.superseded != "" && m.ownState && m.clientTx && !clientPending && m.ci > 0 && m.ci < len(m.cx.steps) && now-m.cxStart < m.retryDelay && !m.broken[m.cx.name] {
+			m.broken[m.cx.name] = true
+			return []explore.Violation{{Sig: fmt.Sprintf("client-started exchange deleted by the expiry of a superseded one:%s:superseded=%s", m.cx.name, m.superseded),
+				Detail: fmt.Sprintf("the %s exchange (msg id %d) began at %v and is waiting for the broker; at %v the timer of the earlier, abandoned %s with the same msg id expired and the gateway's state of the new exchange is gone (its own timeout is %v): the broker's answer will be dropped", m.cx.name, m.mid, m.cxStart, now, m.superseded, m.retryDelay)}}
+		}
 		if m.clientTx && !clientPending {
 			// the gateway's own bookkeeping of the client-started exchange expired (RetryDelay):
 			// a later broker answer is not demanded, with or without the other exchange
@@ -116,6 +133,11 @@ func (m *c06mon) After(g *gw.GW, ev string, sn []gw.SNOut, mq []gw.MQOut, setup 
 		return nil
 	}
 	want := x.steps[*idx].want
+	if who == "client-started" && *idx == 0 {
+		m.cxStart = now
+		// some requests (PUBLISH QoS 2) are passed on without any gateway state: then there is nothing to lose
+		m.ownState = txNow != "" && (txNow != m.txPrev || strings.HasPrefix(m.superseded, "first transmission"))
+	}
 	*idx++
 	if m.broken[x.name] {
 		return nil
@@ -194,6 +216,29 @@ func c06specs() []gw.Spec {
 			}
 		}
 	}
+	// superseded family: an abandoned client exchange with the same id (another kind of request, or the first
+	// transmission of the same request), one second before the exchange under observation begins
+	for _, mid := range []uint16{1} {
+		cxs, _ := c06exchanges(mid)
+		for _, cx := range cxs {
+			if cx.name == "client REGISTER" {
+				continue // answered by the gateway at once: nothing is pending
+			}
+			type old struct{ name, ev string }
+			olds := []old{{"SUBSCRIBE(s/0)", gw.EvC("earlier SUBSCRIBE(s/0), never answered", gw.SubscribeName(mid, "s/0", 1, false))}}
+			if cx.name == "client SUBSCRIBE" {
+				olds = []old{{"PUBLISH q1", gw.EvC("earlier PUBLISH(q1), never answered", gw.Publish(1, 1, mid, 1, false, false, "o"))}}
+			}
+			olds = append(olds, old{"first transmission of the same request", strings.Replace(cx.steps[0].ev, "C:", "earlier C:", 1)})
+			for _, o := range olds {
+				cx, o, mid := cx, o, mid
+				st := append(append([]string{}, setup...), o.ev, gw.EvAdvance(time.Second))
+				out = append(out, gw.Spec{Name: fmt.Sprintf("%s superseding %s (msg id %d)", cx.name, o.name, mid), Cfg: cfg, Setup: st, NewMonitor: func() gw.Monitor {
+					return &c06mon{mid: mid, cx: cx, bx: exchange6{name: "none"}, maxTimer: maxT, broken: map[string]bool{}, superseded: o.name, retryDelay: cfg.RetryDelay}
+				}})
+			}
+		}
+	}
 	return out
 }
 
@@ -205,7 +250,7 @@ func TestC06(t *testing.T) {
 	}
 	rep := explore.NewReport("C06", "model_checking")
 	gw.BFSCheck(rep, specs, gw.BFSOpts{Test: "TestC06"}, 240, 1500)
-	rep.Coverage["rule"] = "gateway side: for each pair (client-started exchange in {PUBLISH q1, SUBSCRIBE, PUBLISH q2, REGISTER}) x (broker-started exchange in {PUBLISH q1, PUBLISH q2, PUBLISH q1 on a new topic} with message id 1, and PUBLISH q0 on a new topic whose REGISTER uses the gateway-chosen id 0xFFFF) with the same message id: BFS over every shuffle of their steps with up to 2 (thorough 3) timer expiries at any position; each step must produce the output it produces when its exchange runs alone (differential expectation: the scripts' own step/response pairs)"
+	rep.Coverage["rule"] = "gateway side: (superseded family: an abandoned client exchange with the same id - another request or the first transmission of the same one - 1 s before the observed exchange; its expiry must not remove the newer state) for each pair (client-started exchange in {PUBLISH q1, SUBSCRIBE, PUBLISH q2, REGISTER}) x (broker-started exchange in {PUBLISH q1, PUBLISH q2, PUBLISH q1 on a new topic} with message id 1, and PUBLISH q0 on a new topic whose REGISTER uses the gateway-chosen id 0xFFFF) with the same message id: BFS over every shuffle of their steps with up to 2 (thorough 3) timer expiries at any position; each step must produce the output it produces when its exchange runs alone (differential expectation: the scripts' own step/response pairs)"
 	rep.Assumptions = []string{"default schedule within a step"}
 	rep.Finish()
 }
